@@ -227,6 +227,8 @@ func swarmAppsafe(t *Tape) FleetCfg {
 	}
 	c.CrashRate = pick(t, "cfg-crash2", 0, 8, 20)
 	c.Work.MaxOps = 1 + t.Choose("cfg-maxops2", 2)
+	// periodic forced snapshots: uploads that are not triggered by a change
+	c.ForceInt = pick(t, "cfg-forceint2", 0, 0, 5*time.Second, 20*time.Second)
 	return c
 }
 
